@@ -1,5 +1,6 @@
 import Hls.Proto
 import Hls.Muxer.Model
+import Hls.Muxer.Close
 import Hls.Muxer.ReqSpec
 /-! Model driver for the `muxer` correspondence stream (C01–C06 sequential, C18). -/
 open Hls.Proto Hls.Muxer
@@ -228,6 +229,13 @@ def step (s : St) (line : String) : St × List String :=
         let (st', r) := write st op
         ({ s with st := some st' }, [s!"w {if r = .ok then "ok" else "err"} enc={st'.encErrs}"])
       | _, _, _, _, _, _, _, _, _, _ => (s, ["bad-op"])
+  | ["close"] =>
+    match s.st with
+    | none => (s, ["bad-op"])
+    | some st =>
+      let st' := close st
+      let fl := if s.dir then String.intercalate " " ((sortFiles st'.files).map fmtKey) else "-"
+      ({ s with st := none }, [s!"closed files={fl}"])
   | ["snap"] =>
     match s.st with
     | none => (s, ["bad-op"])
